@@ -286,9 +286,21 @@ func trunc(s string, n int) string {
 
 var _ = strings.Join
 
+var ballast []byte
+
 func init() {
 	// The explorers allocate at a very high rate over a tiny live heap: with the default GC pacing the
 	// collector runs thousands of cycles per second and serialises the workers. Collect by memory limit instead.
-	debug.SetGCPercent(-1)
-	debug.SetMemoryLimit(3 << 30)
+	pct := 400
+	if v := os.Getenv("VERIF_GC"); v != "" {
+		fmt.Sscan(v, &pct)
+	}
+	debug.SetGCPercent(pct)
+	mb := 0
+	if v := os.Getenv("VERIF_BALLAST"); v != "" {
+		fmt.Sscan(v, &mb)
+	}
+	if mb > 0 {
+		ballast = make([]byte, mb<<20)
+	}
 }
